@@ -87,6 +87,7 @@ pub fn gen_stat_spec(rng: &mut Rng, is_f64: bool) -> Option<(ProblemSpec, &'stat
 
 fn class_scaled(c: &'static str) -> &'static str {
     match c {
+        "large sample (N in 2048..4600)" => "large sample (badly scaled units)",
         "shape sweep" => "shape sweep (badly scaled units)",
         "separated decays" => "separated decays (badly scaled units)",
         _ => "over-parameterised noisy (badly scaled units)",
@@ -94,6 +95,26 @@ fn class_scaled(c: &'static str) -> &'static str {
 }
 
 fn gen_stat_spec_inner(rng: &mut Rng) -> Option<(ProblemSpec, &'static str)> {
+    if rng.chance(0.02) {
+        // many observations (thousands), sample counts with awkward remainders, heavy weights on the tail
+        let k = rng.int(1, 2);
+        let n = rng.int(2048, 4600) | 1;
+        let mut taus = vec![rng.range(0.5, 2.0)];
+        if k == 2 {
+            taus.push(taus[0] * rng.range(3.0, 6.0));
+        }
+        let x = grid(rng, n, 0.0, 4.0 * taus[k - 1], false);
+        let mut g = gen_problem_for(rng, &GenOpts { noise: 0.01, force_s: Some(1), ..Default::default() }, z1(x, k, true), taus.clone());
+        g.spec.mrhs = false;
+        g.spec.par = rng.chance(0.7);
+        g.spec.alpha0 = perturb_alpha(rng, &taus, 0.02);
+        let mut w: Vec<f64> = (0..n).map(|_| rng.range(0.5, 2.0)).collect();
+        for i in (n - rng.int(1, 9))..n {
+            w[i] *= rng.range(10.0, 80.0);
+        }
+        g.spec.w = Some(w);
+        return Some((g.spec, "large sample (N in 2048..4600)"));
+    }
     let class = rng.below(10);
     if class < 6 {
         let m = rng.int(1, 5);
@@ -176,16 +197,27 @@ pub fn scaled_normal_matrix(h: &Mat) -> Option<(Vec<f64>, Mat, f64)> {
     Some((d, g, lmax / lmin))
 }
 
-/// The oracle's own covariance sigma^2 (H^T H)^-1 in f64, through the column-equilibrated normal
-/// matrix: returns (D, V, lambda) with (H^T H)^-1 = D^-1 V diag(1/lambda) V^T D^-1.
-pub fn oracle_quadratic_form(d: &[f64], g: &Mat, j_row: &[f64]) -> f64 {
-    // j^T (H^T H)^-1 j = | Lambda^-1/2 V^T D^-1 j |^2
-    let (ev, v) = crate::la::sym_eig(g);
-    let z: Vec<f64> = j_row.iter().zip(d).map(|(a, b)| a / b).collect();
-    let mut s = 0.0;
-    for k in 0..ev.len() {
-        let proj = crate::la::dot(v.col(k), &z);
-        s += proj * proj / ev[k];
+/// The oracle's own (H^T H)^-1 in f64 through the column-equilibrated normal matrix:
+/// (H^T H)^-1 = D^-1 V diag(1/lambda) V^T D^-1, prepared once per fit.
+pub struct OracleInverse {
+    d: Vec<f64>,
+    ev: Vec<f64>,
+    v: Mat,
+}
+
+impl OracleInverse {
+    pub fn new(d: &[f64], g: &Mat) -> OracleInverse {
+        let (ev, v) = crate::la::sym_eig(g);
+        OracleInverse { d: d.to_vec(), ev, v }
     }
-    s
+    /// j^T (H^T H)^-1 j = | Lambda^-1/2 V^T D^-1 j |^2
+    pub fn quad(&self, j_row: &[f64]) -> f64 {
+        let z: Vec<f64> = j_row.iter().zip(&self.d).map(|(a, b)| a / b).collect();
+        let mut s = 0.0;
+        for k in 0..self.ev.len() {
+            let proj = crate::la::dot(self.v.col(k), &z);
+            s += proj * proj / self.ev[k];
+        }
+        s
+    }
 }
